@@ -105,21 +105,65 @@ func (w *World) resolveContract(fr *Frame, c *ssa.CallCommon, st *State) (*Contr
 	if fn != nil {
 		return w.contractFor(fn), fn
 	}
-	if name := calleeVarName(c.Value); name != "" {
-		for f := fr; f != nil; f = nil {
-			if f.contract != nil {
-				if cs := f.contract.CallSpecs[name]; cs != nil {
-					return cs, nil
-				}
+	var specs map[string]*Contract
+	if fr.contract != nil && len(fr.contract.CallSpecs) > 0 {
+		specs = fr.contract.CallSpecs
+	} else {
+		specs = fr.callspecs
+	}
+	if name := calleeVarName(c.Value); name != "" && specs != nil {
+		if cs := specs[name]; cs != nil {
+			return cs, nil
+		}
+	}
+	// no callspec under the variable's name: a callspec attached to a
+	// variable of the same function type applies (keeps contracts stable
+	// when a local copy of the function value is introduced or renamed)
+	if specs != nil {
+		top := fr
+		for top.parent != nil {
+			top = top.parent
+		}
+		var found *Contract
+		n := 0
+		var names []string
+		for k := range specs {
+			names = append(names, k)
+		}
+		sortStrings(names)
+		for _, k := range names {
+			if t := varTypeByName(top.fn, k); t != nil && types.Identical(t, c.Value.Type()) {
+				found = specs[k]
+				n++
 			}
 		}
-		if fr.callspecs != nil {
-			if cs := fr.callspecs[name]; cs != nil {
-				return cs, nil
-			}
+		if n == 1 {
+			return found, nil
 		}
 	}
 	return nil, nil
+}
+
+// varTypeByName finds the type of a parameter, free variable or local of fn.
+func varTypeByName(fn *ssa.Function, name string) types.Type {
+	for _, p := range fn.Params {
+		if p.Name() == name {
+			return p.Type()
+		}
+	}
+	for _, fv := range fn.FreeVars {
+		if fv.Name() == name {
+			return deref(fv.Type())
+		}
+	}
+	for _, b := range fn.Blocks {
+		for _, ins := range b.Instrs {
+			if a, ok := ins.(*ssa.Alloc); ok && a.Comment == name {
+				return deref(a.Type())
+			}
+		}
+	}
+	return nil
 }
 
 func (w *World) contractFor(fn *ssa.Function) *Contract {
@@ -166,7 +210,13 @@ func (w *World) execCallCommon(fr *Frame, st *State, c *ssa.CallCommon, ins *ssa
 			args = append(args, w.val(fr, st, c.Value))
 		}
 		for _, a := range c.Args {
-			args = append(args, w.val(fr, st, a))
+			av := w.val(fr, st, a)
+			if av.T.S == "" {
+				if t, ok := w.addrTerm(av); ok {
+					av = &Val{T: t, Typ: av.Typ, Loc: av.Loc}
+				}
+			}
+			args = append(args, av)
 		}
 	}
 	sig := c.Signature()
@@ -178,6 +228,62 @@ func (w *World) execCallCommon(fr *Frame, st *State, c *ssa.CallCommon, ins *ssa
 	if special := w.specialCall(fr, st, c, fn, args, ins); special {
 		return
 	}
+	// a call through a variable that is also assigned known functions in
+	// this body: split on the identity of the callee
+	if fn == nil && !c.IsInvoke() {
+		if cands, closed := storedFunctions(fr.fn, c.Value); len(cands) > 0 {
+			cv := w.val(fr, st, c.Value)
+			var sts []*State
+			var results []*Val
+			rest := st.clone()
+			for _, cand := range cands {
+				br := st.clone()
+				isC := eq(cv.T, w.fnID(cand))
+				br.cond = w.sc.define("pc", and(st.cond, isC))
+				rest.cond = w.sc.define("pc", and(rest.cond, not(isC)))
+				results = append(results, w.callKnown(fr, br, cand, args, nil, sig))
+				sts = append(sts, br)
+			}
+			if !closed {
+				results = append(results, w.callUnknownOrSpec(fr, rest, c, ct, callee, args, sig, bindings))
+				sts = append(sts, rest)
+			}
+			var conds []Term
+			for _, x := range sts {
+				conds = append(conds, x.cond)
+			}
+			merged := w.mergeStates(fr.fn.Name()+".dyncall", sts)
+			merged.cond = st.cond
+			*st = *merged
+			if sig.Results().Len() == 1 {
+				var vals []Term
+				for _, r := range results {
+					vals = append(vals, r.T)
+				}
+				setResult(&Val{T: w.sc.define("dynres", iteChain(conds, vals)), Typ: sig.Results().At(0).Type()})
+			} else if sig.Results().Len() == 0 {
+				setResult(&Val{Typ: sig.Results()})
+			} else {
+				unsupported("multi-result dynamic call split in %s", fr.fn.Name())
+			}
+			return
+		}
+	}
+	setResult(w.callResolved(fr, st, c, ct, callee, fn, args, sig, bindings))
+}
+
+// callKnown performs a call to a statically known function of the module or a
+// dependency: by contract when it has one, inlined when possible, havoc otherwise.
+func (w *World) callKnown(fr *Frame, st *State, fn *ssa.Function, args []*Val, bindings []*Val, sig *types.Signature) *Val {
+	ct := w.contractFor(fn)
+	return w.callResolved(fr, st, nil, ct, fn, fn, args, sig, bindings)
+}
+
+func (w *World) callUnknownOrSpec(fr *Frame, st *State, c *ssa.CallCommon, ct *Contract, callee *ssa.Function, args []*Val, sig *types.Signature, bindings []*Val) *Val {
+	return w.callResolved(fr, st, c, ct, callee, nil, args, sig, bindings)
+}
+
+func (w *World) callResolved(fr *Frame, st *State, c *ssa.CallCommon, ct *Contract, callee, fn *ssa.Function, args []*Val, sig *types.Signature, bindings []*Val) *Val {
 	if ct != nil && !ct.Inline {
 		names := ct.Params
 		if callee != nil && len(names) == 0 {
@@ -193,26 +299,65 @@ func (w *World) execCallCommon(fr *Frame, st *State, c *ssa.CallCommon, ins *ssa
 				}
 			}
 		}
-		setResult(w.applyContract(fr, st, ct, names, args, sig, env, contractPkg(w, ct, callee)))
-		return
+		return w.applyContract(fr, st, ct, names, args, sig, env, contractPkg(w, ct, callee))
 	}
 	if fn != nil && fn.Blocks != nil && w.inModule(fn) && w.canInline(fr, fn) {
-		setResult(w.inlineCall(fr, st, fn, args, bindings))
-		return
+		return w.inlineCall(fr, st, fn, args, bindings)
 	}
 	// unknown callee: everything it could reach is forgotten
 	name := "<dynamic>"
 	if fn != nil {
 		name = fn.String()
-	} else if c.IsInvoke() {
+	} else if c != nil && c.IsInvoke() {
 		name = ifaceMethodKeys(c)[0]
-	} else if n := calleeVarName(c.Value); n != "" {
-		name = "func value " + n
+	} else if c != nil {
+		if n := calleeVarName(c.Value); n != "" {
+			name = "func value " + n
+		}
 	}
 	w.sc.comment("havoc: call to " + name + " without contract")
 	w.havocked = append(w.havocked, name)
 	w.havocAll(st)
-	setResult(w.freshResult(st, sig, "ret"))
+	return w.freshResult(st, sig, "ret")
+}
+
+// storedFunctions lists the functions of the program that the body of fn
+// assigns to the variable a dynamic call goes through.
+// closed reports that the variable is a non-escaping local that only ever
+// holds those functions.
+func storedFunctions(fn *ssa.Function, callee ssa.Value) (out []*ssa.Function, closed bool) {
+	u, ok := callee.(*ssa.UnOp)
+	if !ok || u.Op != token.MUL {
+		return nil, false
+	}
+	root := u.X
+	if a, ok := root.(*ssa.Alloc); ok && !a.Heap {
+		closed = true
+	}
+	for _, b := range fn.Blocks {
+		for _, ins := range b.Instrs {
+			if st, ok := ins.(*ssa.Store); ok && st.Addr == root {
+				if _, ok := st.Val.(*ssa.Function); !ok {
+					closed = false
+				}
+				if f, ok := st.Val.(*ssa.Function); ok {
+					dup := false
+					for _, o := range out {
+						if o == f {
+							dup = true
+						}
+					}
+					if !dup {
+						out = append(out, f)
+					}
+				}
+			}
+		}
+	}
+	if len(out) == 0 {
+		closed = false
+	}
+	return out, closed
 }
 
 func contractPkg(w *World, ct *Contract, callee *ssa.Function) *types.Package {
@@ -366,6 +511,9 @@ func (w *World) applyContract(fr *Frame, st *State, ct *Contract, names []string
 	w.assumeResultWF(st, res)
 	post := &CEnv{w: w, pkg: pkg, vars: vars, cur: st, old: pre, lets: ct.Lets}
 	for _, en := range ct.Ensures {
+		if en.Withdrawn {
+			continue
+		}
 		w.sc.assume(implies(st.cond, w.evalBool(post, en.Expr)))
 	}
 	w.usedContracts[ct.Kind+" "+ct.Name] = ct
